@@ -16,7 +16,9 @@ from .models.sqlmodel import SqlModelCodeGenerator
 try:
     import ruamel.yaml as yaml
 
-    yaml_load = yaml.YAML(typ='safe', pure=True).load
+    def yaml_load(stream):
+        # A new parser object per call: YAML instances keep parsing state and must not be shared between threads
+        return yaml.YAML(typ='safe', pure=True).load(stream)
 except ImportError:
     try:
         import yaml
